@@ -98,7 +98,7 @@ def run(ctx):
     # (V)
     nseq = ctx.pick(10, 80)
     maxn = ctx.pick(120, 300)
-    seqs = common.random_sequences(ctx.rng, nseq, maxn, 2) + patterning.special_sequences(ctx.rng, ctx.pick(120, 300))[-6:]
+    seqs = common.random_sequences(ctx.rng, nseq, maxn, 2) + patterning.special_sequences(ctx.rng, ctx.pick(120, 300))[-16:]
     trs = []
     tid = 0
     for s in seqs:
